@@ -144,17 +144,59 @@ def write_if_changed(path, text):
 def generate():
     """Regenerate every Generated/*.lean from the current sources; files are rewritten only when their
     content changed (keeps lake incremental).  Returns (changed-files, {provider: table-dict}).
-    Raises TranslatorError when an anchor is missing."""
+    A provider whose anchor is missing does not stop the others: its error is recorded in ERRORS
+    ({LEAN_FILE: message}), its previously generated file (if any) is left in place so that the models
+    still build, and only the properties that import that file get a failed translator obligation."""
     changed, tabs = [], {}
+    ERRORS.clear()
     for prov in _providers():
-        tab = prov.extract()
-        text = ("-- GENERATED by harness/gen_tables.py (provider tables/%s.py) from the current /repo "
-                "sources. DO NOT EDIT.\n" % prov.__name__.split(".")[-1]) + prov.emit(tab)
+        name = prov.__name__.split(".")[-1]
+        try:
+            tab = prov.extract()
+            text = ("-- GENERATED by harness/gen_tables.py (provider tables/%s.py) from the current /repo "
+                    "sources. DO NOT EDIT.\n" % name) + prov.emit(tab)
+        except TranslatorError as err:
+            ERRORS[prov.LEAN_FILE] = "%s: %s" % (name, err)
+            # keep the models buildable (for the failing-input search): fall back to the file last generated
+            # for /repo itself when this directory has none
+            out = os.path.join(GEN_DIR, prov.LEAN_FILE)
+            fallback = os.path.join(FALLBACK_DIR, prov.LEAN_FILE) if FALLBACK_DIR else None
+            if not os.path.exists(out) and fallback and os.path.exists(fallback):
+                import shutil
+                os.makedirs(GEN_DIR, exist_ok=True)
+                shutil.copyfile(fallback, out)
+            continue
         out = os.path.join(GEN_DIR, prov.LEAN_FILE)
         if write_if_changed(out, text):
             changed.append(prov.LEAN_FILE)
-        tabs[prov.__name__.split(".")[-1]] = tab
+        tabs[name] = tab
     return changed, tabs
+
+
+ERRORS = {}
+FALLBACK_DIR = None
+
+
+def live_module(name):
+    """import polyply.src.<name> from the tree under REPO (fallback when a module-level table is no longer a
+    literal but still a module attribute, e.g. built by a comprehension)"""
+    import importlib
+    if REPO not in sys.path:
+        sys.path.insert(0, REPO)
+    return importlib.import_module("polyply.src." + name)
+
+
+def module_value(rel, name):
+    """value of the module-level name `name` of polyply/src/<rel>: the ast literal if it is one, else the
+    attribute of the live module"""
+    try:
+        return lit(module_assign(src(rel), name))
+    except TranslatorError:
+        try:
+            return getattr(live_module(rel[:-3]), name)
+        except Exception as err:  # pylint: disable=broad-except
+            raise TranslatorError("anchor not found: %s.%s (neither a literal nor a live attribute: %s)"
+                                  % (rel, name, err))
 
 
 def validate_live(tabs):
@@ -163,8 +205,9 @@ def validate_live(tabs):
         sys.path.insert(0, REPO)
     problems = []
     for prov in _providers():
-        if hasattr(prov, "validate_live"):
-            problems += prov.validate_live(tabs[prov.__name__.split(".")[-1]])
+        name = prov.__name__.split(".")[-1]
+        if hasattr(prov, "validate_live") and name in tabs:
+            problems += prov.validate_live(tabs[name])
     return problems
 
 
@@ -175,5 +218,7 @@ if __name__ == "__main__":
         print("TRANSLATOR-ERROR:", err)
         sys.exit(2)
     print("generated; rewritten:", changed_)
+    for file_, err_ in ERRORS.items():
+        print("TRANSLATOR-ERROR:", file_, err_)
     for problem in validate_live(tabs_):
         print("LIVE-MISMATCH:", problem)
